@@ -104,7 +104,11 @@ CPPManifest(const CPPPreprocessor &parser, const string &args, const cppyyltype 
     parse_parameters(args, p, parameter_names);
     _num_parameters = parameter_names.size();
 
-    p++;
+    // Skip the closing parenthesis, which is absent if the parameter list
+    // was not terminated.
+    if (p < args.size()) {
+      p++;
+    }
   } else {
     _has_parameters = false;
     _num_parameters = 0;
